@@ -966,6 +966,7 @@ fn v6exts(e: &err::ipv6_exts::ExtsWalkError) -> String {
 }
 
 fn show_write_err(e: &BuildWriteError) -> String {
+    crate::util::touch(e);
     match e {
         BuildWriteError::Io(e) => format!("Io({:?})", e.kind()),
         BuildWriteError::PayloadLen(e) => payload_len(e),
@@ -976,6 +977,7 @@ fn show_write_err(e: &BuildWriteError) -> String {
     }
 }
 fn show_vec_err(e: &BuildVecWriteError) -> String {
+    crate::util::touch(e);
     match e {
         BuildVecWriteError::PayloadLen(e) => payload_len(e),
         BuildVecWriteError::Ipv4Exts(e) => v4exts(e),
@@ -985,6 +987,7 @@ fn show_vec_err(e: &BuildVecWriteError) -> String {
     }
 }
 fn show_slice_err(e: &BuildSliceWriteError) -> String {
+    crate::util::touch(e);
     match e {
         BuildSliceWriteError::Space(n) => format!("Space({})", n),
         BuildSliceWriteError::PayloadLen(e) => payload_len(e),
